@@ -291,6 +291,17 @@ impl<'a, T: Read + Write + Seek> PointCloudWriter<'a, T> {
         let contains = |n: RecordName| prototype.iter().any(|p| p.name == n);
         let get = |n: RecordName| prototype.iter().find(|p| p.name == n);
 
+        // A prototype is a structure, every record needs its own name
+        let mut names = std::collections::HashSet::with_capacity(prototype.len());
+        for record in prototype {
+            if !names.insert(&record.name) {
+                Error::invalid(format!(
+                    "The record {:?} is listed more than once in the prototype",
+                    record.name
+                ))?
+            }
+        }
+
         // Cartesian or spherical?
         validate_cartesian(prototype)?;
         validate_spherical(prototype)?;
